@@ -145,6 +145,49 @@ def matches_known(pid: str, viol: dict, known: list[dict]):
     return None
 
 
+
+# ------------------------------------------------------------------------------------------ equivalence rescue (DESIGN.md §13.7)
+def equivalence_rescue(ex, lean_mods: list[str], tag: str) -> dict:
+    """The contracts are written against the Lean text generated from the tree they were proved on (snapshot lean/Baseline, namespace
+    TucanBase). When they no longer check for the current tree, try to prove `@Tucan.m.f = @TucanBase.m.f` for every function (and
+    constant) of the Generated modules the contract modules import, and rebuild the contract text against the snapshot
+    (ContractsBase.*). If Lean accepts both, every contract statement holds for the current functions by substitution of equals."""
+    from vlib import baseline
+    gen_in_closure = {m for m in leanbuild.closure(lean_mods) if m.startswith("Generated.")}
+    text, names = baseline.equiv_module(ex, gen_in_closure)
+    mod = "Probe.Equiv_" + tag
+    os.makedirs(os.path.join(leanbuild.LEAN_SRC, "Probe"), exist_ok=True)
+    path = leanbuild.module_path(mod)
+    tmp = f"{path}.{os.getpid()}.tmp"
+    open(tmp, "w").write(text)
+    os.replace(tmp, path)
+    base_mods = baseline.contracts_base(leanbuild.LEAN_SRC, lean_mods)
+    base_top = ["ContractsBase." + m.split(".")[-1] for m in lean_mods if m.startswith("Contracts.")]
+    t = time.time()
+    res = leanbuild.build([mod] + base_top, timeout=1800)
+    r = res[mod]
+    unproved = []
+    if not r.ok:
+        lines = text.splitlines()
+        for ln in dict.fromkeys(re.findall(r"Equiv_\w+\.lean:(\d+):\d+: error", r.output)):
+            i = min(int(ln), len(lines)) - 1
+            while i >= 0 and not lines[i].startswith("theorem"):
+                i -= 1
+            if i >= 0 and "Equiv." + lines[i].split()[1] not in unproved:
+                unproved.append("Equiv." + lines[i].split()[1])
+        unproved = unproved or ["<module " + mod + ">"]
+    base_bad = [m for m in res if m.startswith("ContractsBase.") and not res[m].ok]
+    changed = []
+    for g in sorted(gen_in_closure):
+        b = os.path.join(leanbuild.LEAN_SRC, "Baseline", g.split(".")[-1] + ".lean")
+        cur = open(leanbuild.module_path(g)).read()
+        if not os.path.exists(b) or open(b).read() != baseline.rename_to_base(cur):
+            changed.append(g)
+    return {"attempted": True, "succeeded": r.ok and not base_bad, "module": mod, "equalities": names, "unproved": unproved,
+            "baseline_contract_modules_failed": base_bad, "generated_modules_differing_from_baseline": changed,
+            "seconds": round(time.time() - t, 1), "results": res, "lean_output": r.output[:6000],
+            "timeout": bool(getattr(r, "timeout", False))}
+
 # ------------------------------------------------------------------------------------------ main check
 def run_check(pid: str, tier: str, seed: int) -> int:
     t0 = time.time()
@@ -214,7 +257,34 @@ def run_check(pid: str, tier: str, seed: int) -> int:
             else:
                 names = failed_obligations(r)
                 lean_fail_detail.append({"module": m, "obligations": names, "lean_output": r.output[:6000]})
-    ok_mods = [m for m in oblig_mods if res[m].ok]
+    # equivalence rescue: contract modules rejected although extraction, frames and the generated modules are fine
+    rescue = {"attempted": False}
+    contract_fail = [d for d in lean_fail_detail if d["module"].startswith("Contracts.")]
+    if (contract_fail and not not_generated and not frame_fail and all(res[m].ok for m in res if m.startswith("Generated."))
+            and os.environ.get("VERIF_NO_RESCUE") != "1"):
+        try:
+            rescue = equivalence_rescue(ex, lean_mods, pid)
+        except Exception as e:  # noqa: BLE001
+            rescue = {"attempted": True, "succeeded": False, "unproved": [], "error": "".join(traceback.format_exception_only(type(e), e))[:600]}
+        r2 = rescue.pop("results", {})
+        if rescue.get("succeeded"):
+            # the obligations of the contract modules are discharged for the snapshot text and carried over by the equalities
+            lean_fail_detail = [d for d in lean_fail_detail if not d["module"].startswith("Contracts.")]
+            to_base = lambda m: "ContractsBase." + m.split(".")[-1] if m.startswith("Contracts.") else m  # noqa: E731
+            oblig_mods = [to_base(m) for m in oblig_mods] + [rescue["module"]]
+            obligations += rescue["equalities"]
+            for m, r in r2.items():
+                res[m] = r
+                timings[m] = {"seconds": round(r.seconds, 2), "cached": r.cached, "ok": r.ok}
+        elif rescue.get("timeout"):
+            status["undecided"].append("equivalence rescue: Lean time-out")
+        elif rescue.get("unproved"):
+            lean_fail_detail.append({"module": rescue.get("module", "Probe.Equiv"), "obligations": rescue["unproved"],
+                                     "lean_output": "the contracts do not check for the current text of these functions and Lean found no proof that they "
+                                                    "equal the snapshot the contracts were proved against\n" + rescue.get("lean_output", "")})
+    cov["equivalence_rescue"] = {k: v for k, v in rescue.items() if k not in ("lean_output",)} | (
+        {"equalities": len(rescue["equalities"])} if rescue.get("equalities") else {})
+    ok_mods = [m for m in oblig_mods if m in res and res[m].ok]
     thms_ok = [t for m in ok_mods for t in theorems_in(m)]
     ax = axioms_probe(ok_mods, thms_ok, work) if thms_ok else {}
     allowed = {"propext", "Classical.choice", "Quot.sound"}
@@ -223,6 +293,39 @@ def run_check(pid: str, tier: str, seed: int) -> int:
             discharged.append(t)
         else:
             lean_fail_detail.append({"module": "<axioms>", "obligations": [t], "lean_output": f"{t} depends on {ax.get(t)}"})
+    # vacuity guards (lean/Contracts/Witness.lean): concrete instances satisfying every hypothesis of the property-level theorems
+    wit_names = registry.WITNESSES.get(pid, [])
+    wit_rows = []
+    if wit_names and lean_mods and not rescue.get("attempted") and not lean_fail_detail:
+        wres = leanbuild.build([registry.WITNESS_MODULE], timeout=1800)
+        wr = wres[registry.WITNESS_MODULE]
+        timings[registry.WITNESS_MODULE] = {"seconds": round(wr.seconds, 2), "cached": wr.cached, "ok": wr.ok}
+        if wr.ok:
+            wax = axioms_probe([registry.WITNESS_MODULE], wit_names, work)
+            for t in wit_names:
+                obligations.append(t)
+                good = set(wax.get(t, ["?"])) <= allowed
+                wit_rows.append({"witness": t, "discharged": good})
+                if good:
+                    discharged.append(t)
+                else:
+                    lean_fail_detail.append({"module": "<axioms>", "obligations": [t], "lean_output": f"{t} depends on {wax.get(t)}"})
+        elif wr.skipped or any(r.skipped or not r.ok for m, r in wres.items() if m != registry.WITNESS_MODULE):
+            # a contract module of another property is rejected: the witnesses cannot be checked on this run (not this property's alarm)
+            wit_rows = [{"witness": t, "discharged": None, "note": "not checked: a module outside this property's closure is rejected"} for t in wit_names]
+        elif getattr(wr, "timeout", False):
+            status["undecided"].append("Contracts.Witness: Lean time-out")
+        else:
+            bad = failed_obligations(wr)
+            for t in wit_names:
+                obligations.append(t)
+                if t.split(".")[-1] in bad:
+                    wit_rows.append({"witness": t, "discharged": False})
+                    lean_fail_detail.append({"module": registry.WITNESS_MODULE, "obligations": [t], "lean_output": wr.output[:4000]})
+                else:
+                    wit_rows.append({"witness": t, "discharged": None, "note": "module rejected at another theorem"})
+                    obligations.pop()
+    cov["vacuity_witnesses"] = wit_rows
     scan = source_scan(lean_mods) if lean_mods else []
     if scan:
         status["broken"].append("forbidden constructs in Lean sources: " + "; ".join(scan[:5]))
